@@ -1,4 +1,6 @@
 SPECIFICATION Spec
 CONSTANTS
   MaxDepth = 2
+  MutDepth = 1
+  DEV_StaleKeyOnMove = FALSE
 INVARIANT Emit
